@@ -6,6 +6,10 @@ J="${1:-4}"
 OUT=/verif/seeded/SELFTEST.txt
 TMP=$(mktemp -d /tmp/selftest-XXXXXX)
 trap 'rm -rf "$TMP"' EXIT
+# work on a snapshot of /repo and of the checker, so that edits made while the corpus runs do not leak into it
+rsync -a --exclude .git /repo/ "$TMP/repo/"
+cp bin/vcgo "$TMP/vcgo"
+export SEED_SRC="$TMP/repo" VCGO_BIN="$TMP/vcgo"
 ls seeded | grep -E '^C[0-9]+-[a-z]$' > "$TMP/list"
 run_one() {
   s="$1"; prop="${s%%-*}"
